@@ -264,6 +264,31 @@ func generate(thorough bool, emit func(kase)) {
 			emit(kase{Family: "every-type", Desc: fmt.Sprintf("type%d rdata%d", t, ri), Msg: m})
 		}
 	}
+	// (ii-d) responses whose header RCODE is 0..15 and whose OPT record carries every extended-RCODE octet of interest in its
+	// TTL (the 12-bit response code is assembled from both): decoded, then consumed by the resolver
+	for rc := 0; rc < 16; rc++ {
+		for _, hi := range []byte{0, 1, 2, 0x0f, 0x10, 0x80, 0xff} {
+			for _, withAnswer := range []bool{false, true} {
+				m := hdr(1, 0, 0, 1)
+				m[3] = m[3]&0xf0 | byte(rc)
+				if withAnswer {
+					m = hdr(1, 1, 0, 1)
+					m[3] = m[3]&0xf0 | byte(rc)
+				}
+				m = append(m, qA...)
+				if withAnswer {
+					m = append(m, 0xc0, 12)
+					m = append(m, rrFixed(1, 60, 4)...)
+					m = append(m, 10, 0, 0, 1)
+				}
+				m = append(m, 0) // root owner of the OPT record
+				opt := rrFixed(41, uint32(hi)<<24, 0)
+				opt[2], opt[3] = 0x10, 0x00 // class = UDP payload size 4096
+				m = append(m, opt...)
+				emit(kase{Family: "extended-rcode", Desc: fmt.Sprintf("rcode%d ext%#x answer=%v", rc, hi, withAnswer), Msg: m})
+			}
+		}
+	}
 	// (v) DoH response bodies: content-length missing / lying / over the cap, with bodies up to 8 MiB (see runCase)
 	for _, v := range []string{"no-length-1MiB", "no-length-8MiB", "length-65536", "length-70000", "length-negative", "length-garbage", "length-10-body-5", "length-5-body-1MiB", "length-65535-full"} {
 		emit(kase{Family: "doh-body", Desc: v, Msg: append(hdr(1, 0, 0, 0), qA...)})
@@ -543,7 +568,7 @@ func Worker(tier string, shard, n int) {
 }
 
 func Run(r *ev.Run) {
-	r.Rule("grammar-bounded exhaustive enumeration (E1) in 16 single-threaded worker processes under ulimit -v 3 GiB with a 15 s per-case watchdog: (0) SVCB/HTTPS parameters with every key 0..9/65535 x value length 0..5 x 3 fill bytes, and one record of EVERY type code 0..300 (+4 high codes) with 4 RDATA shapes owned by the queried name (decoded, then consumed by Resolve); (i) every string of <=4 (thorough 5; question position one more) name tokens out of {label 'a', 63-byte label, end, pointer to self / forward / header offset 0 / header offset 11 / question name / middle of the question label / past the end / first earlier token / previous token, 0x40 and 0x80 prefixes, half a pointer} in every name position: question, owner, and inside the RDATA of NS, CNAME, PTR, MX, SOA, SRV, SVCB, HTTPS, NSEC, RRSIG with rdlength true/-1/+1; (ii) for 18 RDATA layouts every truncation (honest and lying rdlength), every byte +-1/+128, rdlength +1/65535; (iii) header counts {0,1,2,65535}x{0,1,2,65535}x{0,1,65535}^2 x 0..3 records present, short headers; (iv) scaling families at n in {64..16384 (thorough 65535)}: pointer chains, n/2 labels, label chain x n/16 records, pointer loops, n/4 parameters. Oracles: returns (watchdog), TotalAlloc delta <= 256KiB+512n+n^2/2, Go type of Data matches Type, and the decoded message served as DoH body to Resolver.Resolve (+Targets) for every name it mentions does not panic. distinct = distinct message byte strings")
+	r.Rule("grammar-bounded exhaustive enumeration (E1) in 16 single-threaded worker processes under ulimit -v 3 GiB with a 15 s per-case watchdog: (0) header RCODE 0..15 x extended-RCODE octet {0,1,2,15,16,128,255} in an OPT record, with and without an answer; SVCB/HTTPS parameters with every key 0..9/65535 x value length 0..5 x 3 fill bytes, and one record of EVERY type code 0..300 (+4 high codes) with 4 RDATA shapes owned by the queried name (decoded, then consumed by Resolve); (i) every string of <=4 (thorough 5; question position one more) name tokens out of {label 'a', 63-byte label, end, pointer to self / forward / header offset 0 / header offset 11 / question name / middle of the question label / past the end / first earlier token / previous token, 0x40 and 0x80 prefixes, half a pointer} in every name position: question, owner, and inside the RDATA of NS, CNAME, PTR, MX, SOA, SRV, SVCB, HTTPS, NSEC, RRSIG with rdlength true/-1/+1; (ii) for 18 RDATA layouts every truncation (honest and lying rdlength), every byte +-1/+128, rdlength +1/65535; (iii) header counts {0,1,2,65535}x{0,1,2,65535}x{0,1,65535}^2 x 0..3 records present, short headers; (iv) scaling families at n in {64..16384 (thorough 65535)}: pointer chains, n/2 labels, label chain x n/16 records, pointer loops, n/4 parameters. Oracles: returns (watchdog), TotalAlloc delta <= 256KiB+512n+n^2/2, Go type of Data matches Type, and the decoded message served as DoH body to Resolver.Resolve (+Targets) for every name it mentions does not panic. distinct = distinct message byte strings")
 	r.Assume("arbitrary byte noise outside the token grammar is not explored", "allocation measured as runtime TotalAlloc delta with GOMAXPROCS=1 in the worker")
 	generate(r.Thorough(), func(k kase) { r.Eval(k.Family+"|"+string(k.Msg), "") })
 	done, total := workers.Spawn(r, "C12", 3*1024*1024)
